@@ -75,7 +75,7 @@ def run(ctx):
     ctx.extra['rule'] = ('(1) audit of the lock discipline assumed by the theorem (single Mutex, state touched only in InternerGuard, no re-entrant lock, arena '
                          'reads through InternerShared::node); (2) stress: 8-16 threads race, from one barrier, to parse the same fresh markers in rotated orders, '
                          'combine, simplify, render, evaluate and compare them; all threads must produce == markers and identical observations, equal to a '
-                         'single-threaded fresh process; watchdog for deadlock, any panic counts; this part is supporting test evidence, not proof. '
+                         'single-threaded fresh process; watchdog for deadlock, any panic counts; (3) hammer: and/or of 16 marker pairs computed once sequentially, then recomputed 60 000-400 000 times by each of 8 threads at once, every result compared with the sequential one; this part is supporting test evidence, not proof. '
                          'non-trivial = distinct (round, marker text)')
     probs = audit(ctx)
     ctx.extra['lock_audit'] = probs or 'ok'
@@ -119,4 +119,19 @@ def run(ctx):
                 break
         if len(ctx.samples) < 3:
             ctx.sample({'threads': nthreads, 'markers': texts[:4]})
+    # (3) hammer: results computed once sequentially, then recomputed by all threads at once, many times, over different pairs:
+    # a result that depends on what another thread is doing at the same moment (unsynchronised memo, torn state) shows up as a mismatch
+    for rd in range(2 if quick else 10):
+        texts = ["os_name == 'posix%d'" % rd, "sys_platform == 'linux'", "os_name == 'nt'", "sys_platform == 'win32'", "python_full_version >= '3.8'",
+                 "platform_machine == 'x86_64'", "python_full_version < '3.8'", "platform_machine == 'arm64'", "extra == 'a%d'" % rd, "'lin' in sys_platform"]
+        texts += [markers.gen_marker(ctx.rng, 1) for _ in range(6)]
+        iters = 60000 if quick else 400000
+        r = fw.batch(h, [['hammer', '8', str(iters), '120000', [S(t) for t in texts]]], timeout=300)[0]
+        ctx.evaluations += 1
+        ctx.oracle_cases += 1
+        how = {'hammer-round': rd, 'threads': 8, 'iterations': iters, 'texts': texts}
+        if r[0] != 'ok':
+            ctx.failure('concurrent use (hammer): %s' % dump(r)[:200], how)
+        elif r[1] != '0':
+            ctx.failure('%s of %s and/or results computed concurrently differ from the sequential result, e.g. pair %s' % (r[1], r[2], dump(r[3])[:200]), how)
     return fw.finish(ctx, 'make -C /verif/coq Props/C15.vo  (coqc, Print Assumptions under each theorem)')
